@@ -884,7 +884,9 @@ Section Run.
     (forall f, In f gen -> forall q, In q (fparams f) -> ~ In q (flat_map fouts gen)) ->
     NoDup (flat_map fouts gen) ->
     seq_fold gen (Ok rs) = Ok rs' ->
-    exists ps', par_gen body dis user ps gen pi = Ok ps' /\ st_rel ps' rs'.
+    exists ps' preps, par_gen body dis user ps gen pi = Ok ps' /\ st_rel ps' rs'
+                      /\ p_preps ps' = p_preps ps ++ preps
+                      /\ r_calls rs' = r_calls rs + length (flat_map tasks_of preps).
   Proof.
     intros (He & Hsh & Ho) Hlay Hnd Hseq.
     destruct (seq_gen_preps body user gen rs rs' (r_env rs) []) as (preps & shapes' & c & Hsub & Hfun & Hsp & ->).
@@ -900,34 +902,433 @@ Section Run.
                   p_trace := p_trace ps ++ flat_map (fun x => oc_dumps (snd x))
                              (execute body dis (flat_map tasks_of preps) (order (length (flat_map tasks_of preps)) pi));
                   p_preps := p_preps ps |})
-        as (ps' & Hpar & H1 & H2 & _).
+        as (ps' & Hpar & H1 & H2 & H3).
       + rewrite <- (flat_map_map fouts prep_fun preps), Hfun. exact Hnd.
       + reflexivity.
       + exact Hsp.
       + reflexivity.
       + cbn [p_out core_of fst snd]. exact Ho.
-      + cbn [flat_map length] in Hpar. exists ps'. split; [exact Hpar|].
-        destruct (parent_fields _ _ _ _ _ _ _ Hpar) as (Hs' & _ & _). cbn [p_shapes] in Hs'.
-        unfold st_rel, state_of. cbn [r_env r_shapes r_out]. repeat split; assumption.
+      + cbn [flat_map length] in Hpar. exists ps', preps. split; [exact Hpar|].
+        destruct (parent_fields _ _ _ _ _ _ _ Hpar) as (Hs' & _ & Hpp). cbn [p_shapes p_preps] in Hs', Hpp.
+        unfold st_rel, state_of. cbn [r_env r_shapes r_out r_calls]. repeat split; assumption.
   Qed.
 
-  Theorem par_gens_equiv : forall gens ps rs pis rs',
-    st_rel ps rs -> NoDup (flat_map fouts (concat gens)) -> layered gens = true ->
-    seq_fold (concat gens) (Ok rs) = Ok rs' ->
-    exists ps', par_gens body dis user ps gens pis = Ok ps' /\ st_rel ps' rs'.
+End Run.
+
+(* ================================================================ logs of a successful parallel run *)
+Lemma filter_combine_fst {A B C} (P : A -> bool) (g : A -> C) (l : list A) : forall (vs : list B),
+  length vs = length l ->
+  map (fun ov => g (fst ov)) (filter (fun ov => P (fst ov)) (combine l vs)) = map g (filter P l).
+Proof.
+  induction l as [|a l IH]; intros [|v vs] H; cbn [length] in H; try discriminate; [reflexivity|].
+  injection H as H. cbn [combine filter fst]. destruct (P a); cbn [map fst]; now rewrite IH.
+Qed.
+
+Section Logs.
+  Variable body : mfunc -> env -> result (list val).
+  Variable dis : str -> bool.
+
+  (* identities of the dumps performed by the worker (w = true) / by the parent (w = false) for a function *)
+  Definition ids_w (w : bool) (p : prep) : list (str * list nat * bool) :=
+    match p with
+    | PMapped f _ _ sh mask =>
+        flat_map (fun i => map (fun o => (o, unravel (ext_of mask sh) i, w))
+                               (filter (fun o => Bool.eqb (dis o) w) (fouts f))) (missing_of p)
+    | PSingle _ _ => []
+    end.
+  Definition task_wids (t : task) : list (str * list nat * bool) :=
+    match t with
+    | (PMapped f _ _ sh mask, Some i) =>
+        map (fun o => (o, unravel (ext_of mask sh) i, true)) (filter (fun o => Bool.eqb (dis o) true) (fouts f))
+    | _ => []
+    end.
+  Definition task_id (t : task) : mfunc * option nat := (prep_fun (fst t), snd t).
+
+  Lemma dumps_for_ids_names w f ms sh mask i outs evs :
+    length outs = length (fouts f) -> dumps_for dis w f ms sh mask i outs = Ok evs ->
+    map dump_id evs = map (fun o => (o, unravel (ext_of mask sh) i, w)) (filter (fun o => Bool.eqb (dis o) w) (fouts f)).
   Proof.
-    induction gens as [|g rest IH]; intros ps rs pis rs' Hrel Hnd Hlay Hseq; cbn [concat] in *.
-    - cbn [fold_left] in Hseq. injection Hseq as <-. exists ps. split; [reflexivity|exact Hrel].
+    intros Hl H. rewrite (dumps_for_ids dis w f ms sh mask i outs evs H).
+    apply (filter_combine_fst (fun o => Bool.eqb (dis o) w) (fun o => (o, unravel (ext_of mask sh) i, w))). exact Hl.
+  Qed.
+
+  (* a task whose future holds a result made exactly one call and exactly its worker-side dumps *)
+  Lemma task_ok_ids p t outs :
+    In t (tasks_of p) -> oc_res (run_task body dis t) = Ok outs ->
+    map call_id (oc_calls (run_task body dis t)) = [task_id t]
+    /\ map dump_id (oc_dumps (run_task body dis t)) = task_wids t
+    /\ length outs = length (fouts (prep_fun p)).
+  Proof.
+    intros Ht H. destruct p as [f ms kw sh mask|f kw]; cbn [tasks_of] in Ht.
+    - apply in_map_iff in Ht as [i [<- _]].
+      destruct (run_task_mapped_inv body dis _ _ _ _ _ _ _ H) as (sel & evs & _ & _ & Hl & Hd & ->).
+      cbn [oc_calls oc_dumps map call_id c_fn c_idx task_id fst snd prep_fun task_wids].
+      repeat split; [|exact Hl]. exact (dumps_for_ids_names true f ms sh mask i outs evs Hl Hd).
+    - destruct Ht as [<-|[]]. destruct (run_task_single_inv body dis _ _ _ H) as (_ & Hl & ->).
+      cbn [oc_calls oc_dumps map call_id c_fn c_idx task_id fst snd prep_fun task_wids]. repeat split. exact Hl.
+  Qed.
+
+  Lemma task_ids_of_prep p : map task_id (tasks_of p) = ids_of_prep p.
+  Proof. destruct p; cbn [tasks_of ids_of_prep map]; [|reflexivity]. rewrite map_map. reflexivity. Qed.
+
+  Lemma task_wids_of_prep p : flat_map task_wids (tasks_of p) = ids_w true p.
+  Proof. destruct p; cbn [tasks_of ids_w flat_map]; [|reflexivity]. now rewrite flat_map_map. Qed.
+
+  (* the parent's collection loop: one dump per missing index and parent-dumped output *)
+  Lemma collect_ids f ms sh mask : forall l ol A0 T0 A T,
+    length ol = length l -> (forall outs, In outs ol -> length outs = length (fouts f)) ->
+    fold_left (fun acc io =>
+                 do st <- acc;
+                 do arrs <- mapM (fun av => place sh mask (fst io) (snd av) (fst av)) (combine (fst st) (snd io));
+                 do evs <- dumps_for dis false f ms sh mask (fst io) (snd io);
+                 Ok (arrs, snd st ++ evs)) (combine l ol) (Ok (A0, T0)) = Ok (A, T) ->
+    map dump_id T = map dump_id T0 ++
+      flat_map (fun i => map (fun o => (o, unravel (ext_of mask sh) i, false))
+                             (filter (fun o => Bool.eqb (dis o) false) (fouts f))) l.
+  Proof.
+    induction l as [|i l IH]; intros [|outs ol] A0 T0 A T Hl Hk H; cbn [length] in Hl; try discriminate;
+      cbn [combine fold_left flat_map] in *.
+    - injection H as _ <-. now rewrite app_nil_r.
+    - cbn [bind fst snd] in H.
+      destruct (mapM _ (combine A0 outs)) as [A1|e]; cbn [bind] in H; [|rewrite fold_left_bind_err in H; discriminate].
+      destruct (dumps_for dis false f ms sh mask i outs) as [evs|e] eqn:Ed; cbn [bind] in H;
+        [|rewrite fold_left_bind_err in H; discriminate].
+      rewrite (IH ol A1 (T0 ++ evs) A T) by (try lia; try exact H; intros o Ho; apply Hk; now right).
+      rewrite map_app, <- app_assoc. f_equal. f_equal.
+      apply (dumps_for_ids_names false f ms sh mask i outs evs); [apply Hk; now left|exact Ed].
+  Qed.
+
+  Variable preps_all : list prep.
+  Variable pi : list nat.
+  Notation tasks := (flat_map tasks_of preps_all).
+  Notation done := (execute body dis (flat_map tasks_of preps_all) (order (length (flat_map tasks_of preps_all)) pi)).
+
+  Lemma finish_inv wtrace pre p post r :
+    preps_all = pre ++ p :: post ->
+    finish_prep dis done wtrace (length (flat_map tasks_of pre)) p = Ok r ->
+    (forall t, In t (tasks_of p) -> exists outs, oc_res (run_task body dis t) = Ok outs)
+    /\ map dump_id (snd r) = ids_w false p.
+  Proof.
+    intros Hp H. destruct p as [f ms kw sh mask|f kw]; cbn [finish_prep] in H.
+    - destruct (mapM _ (seq 0 _)) as [ol|e] eqn:Em; cbn [bind] in H; [|discriminate].
+      destruct (collect_mapped dis f ms sh mask _ ol) as [[A T]|e] eqn:Ec; cbn [bind] in H; [|discriminate].
+      injection H as <-. cbn [snd].
+      assert (forall i, i < prod (ext_of mask sh) ->
+                exists outs, oc_res (run_task body dis (PMapped f ms kw sh mask, Some i)) = Ok outs /\ In outs ol) as Hres.
+      { intros i Hi. cbn [missing_of] in Em. rewrite seq_length in Em.
+        destruct (mapM_ok_in _ _ _ i Em) as [outs [Ho Hin]]; [apply in_seq; lia|].
+        rewrite (await_slot body dis preps_all pi pre _ post i (PMapped f ms kw sh mask, Some i) Hp) in Ho.
+        - eauto.
+        - cbn [tasks_of missing_of]. rewrite nth_error_map, nth_error_seq0 by exact Hi. reflexivity. }
+      split.
+      + intros t Ht. cbn [tasks_of missing_of] in Ht. apply in_map_iff in Ht as [i [<- Hi]]. apply in_seq in Hi.
+        destruct (Hres i ltac:(lia)) as [outs [Ho _]]. eauto.
+      + unfold collect_mapped in Ec. cbn [ids_w].
+        apply (collect_ids f ms sh mask _ ol _ [] A T) in Ec; [exact Ec| |].
+        * rewrite (mapM_length _ _ _ Em). cbn [missing_of]. now rewrite !seq_length.
+        * intros outs Hin. cbn [missing_of] in Em. rewrite seq_length in Em.
+          apply mapM_Forall2 in Em.
+          assert (exists i, In i (seq 0 (prod (ext_of mask sh))) /\
+                            await done (length (flat_map tasks_of pre) + i) = Ok outs) as [i [Hi Ho]].
+          { clear - Em Hin. induction Em as [|a b l r Hab Hrest IH]; [contradiction|].
+            destruct Hin as [<-|Hin]; [exists a; split; [now left|exact Hab]|].
+            destruct (IH Hin) as [i [Hi Ho]]. exists i. split; [now right|exact Ho]. }
+          apply in_seq in Hi.
+          rewrite (await_slot body dis preps_all pi pre _ post i (PMapped f ms kw sh mask, Some i) Hp) in Ho.
+          -- now destruct (run_task_mapped_inv body dis _ _ _ _ _ _ _ Ho) as (_ & _ & _ & _ & Hl & _).
+          -- cbn [tasks_of missing_of]. rewrite nth_error_map, nth_error_seq0 by lia. reflexivity.
+    - destruct (await done _) as [outs|e] eqn:Ea; cbn [bind] in H; [|discriminate]. injection H as <-. cbn [snd ids_w].
+      split; [|reflexivity]. intros t [<-|[]]. exists outs.
+      rewrite <- (Nat.add_0_r (length (flat_map tasks_of pre))) in Ea.
+      now rewrite (await_slot body dis preps_all pi pre _ post 0 (PSingle f kw, None) Hp) in Ea.
+  Qed.
+
+  Lemma parent_inv wtrace : forall rest pre ps ps',
+    preps_all = pre ++ rest ->
+    parent dis done wtrace rest (length (flat_map tasks_of pre)) ps = Ok ps' ->
+    (forall t, In t (flat_map tasks_of rest) -> exists outs, oc_res (run_task body dis t) = Ok outs)
+    /\ exists PT, p_trace ps' = p_trace ps ++ PT /\ map dump_id PT = flat_map (ids_w false) rest.
+  Proof.
+    induction rest as [|p rest IH]; intros pre ps ps' Hp H; cbn [parent] in H.
+    - injection H as <-. split; [intros t []|]. exists []. now rewrite app_nil_r.
+    - destruct (finish_prep dis done wtrace _ p) as [r|e] eqn:Ef; cbn [bind] in H; [|discriminate].
+      destruct (finish_inv wtrace pre p rest r Hp Ef) as [Hok Hids].
+      rewrite <- flat_map_length_app in H.
+      destruct (IH (pre ++ [p]) _ _ ltac:(now rewrite <- app_assoc) H) as [Hok' [PT [Ht Hpt]]]. cbn [p_trace] in Ht.
+      split.
+      + intros t Ht'. cbn [flat_map] in Ht'. apply in_app_or in Ht' as [Ht'|Ht']; [now apply Hok|now apply Hok'].
+      + exists (snd r ++ PT). split; [now rewrite Ht, app_assoc|].
+        cbn [flat_map]. now rewrite map_app, Hids, Hpt.
+  Qed.
+End Logs.
+
+Lemma Permutation_flat_map_ext {A B} (g h : A -> list B) l :
+  (forall x, In x l -> Permutation (g x) (h x)) -> Permutation (flat_map g l) (flat_map h l).
+Proof.
+  induction l as [|x l IH]; intros H; cbn [flat_map]; [apply Permutation_refl|].
+  apply Permutation_app; [apply H; now left|apply IH; intros y Hy; apply H; now right].
+Qed.
+
+Lemma flat_map_flat_map' {A B C} (f : B -> list C) (g : A -> list B) l :
+  flat_map f (flat_map g l) = flat_map (fun x => flat_map f (g x)) l.
+Proof. induction l as [|x l IH]; cbn [flat_map]; [reflexivity|]. now rewrite flat_map_app, IH. Qed.
+
+Lemma flat_map_singleton {A B} (g : A -> B) l : flat_map (fun x => [g x]) l = map g l.
+Proof. induction l as [|x l IH]; cbn; [reflexivity|now rewrite IH]. Qed.
+
+Section LogsRun.
+  Variable body : mfunc -> env -> result (list val).
+  Variable dis : str -> bool.
+  Variable user : shape_dict.
+
+  Lemma ids_w_perm p : Permutation (ids_w dis true p ++ ids_w dis false p) (dump_ids_of_prep dis p).
+  Proof.
+    destruct p as [f ms kw sh mask|f kw]; cbn [ids_w dump_ids_of_prep app]; [|apply Permutation_refl].
+    eapply Permutation_trans; [apply flat_map_app_perm|]. apply Permutation_flat_map_ext. intros i _.
+    rewrite (map_ext_in (fun o => (o, unravel (ext_of mask sh) i, true)) (fun o => (o, unravel (ext_of mask sh) i, dis o))).
+    2:{ intros o Ho. apply filter_In in Ho as [_ Ho]. destruct (dis o); [reflexivity|discriminate]. }
+    rewrite (map_ext_in (fun o => (o, unravel (ext_of mask sh) i, false)) (fun o => (o, unravel (ext_of mask sh) i, dis o))).
+    2:{ intros o Ho. apply filter_In in Ho as [_ Ho]. destruct (dis o); [discriminate|reflexivity]. }
+    rewrite <- map_app. apply Permutation_map.
+    rewrite (filter_ext (fun o => Bool.eqb (dis o) false) (fun o => negb (Bool.eqb (dis o) true)))
+      by (intros o; destruct (dis o); reflexivity).
+    apply filter_partition_perm.
+  Qed.
+
+  Lemma ids_of_prep_fun p id : In id (ids_of_prep p) -> fst id = prep_fun p.
+  Proof.
+    destruct p; cbn [ids_of_prep prep_fun].
+    - intros H. apply in_map_iff in H as [i [<- _]]. reflexivity.
+    - intros [<-|[]]. reflexivity.
+  Qed.
+
+  (* one generation of a successful parallel run: what is appended to the logs *)
+  Theorem gen_logs ps gen pi ps' :
+    par_gen body dis user ps gen pi = Ok ps' ->
+    exists preps L T,
+      map prep_fun preps = gen /\ p_preps ps' = p_preps ps ++ preps
+      /\ p_log ps' = p_log ps ++ L /\ Permutation (map call_id L) (flat_map ids_of_prep preps)
+      /\ p_trace ps' = p_trace ps ++ T /\ Permutation (map dump_id T) (flat_map (dump_ids_of_prep dis) preps).
+  Proof.
+    unfold par_gen. intros H.
+    destruct (submit_gen user (p_env ps) (p_shapes ps) gen) as [[preps shapes']|e] eqn:Es; cbn [bind fst snd] in H; [|discriminate].
+    destruct (parent_fields _ _ _ _ _ _ _ H) as (_ & Hlog & Hpreps). cbn [p_log p_preps] in *.
+    destruct (parent_inv body dis preps pi _ preps [] _ _ eq_refl H) as [Hok [PT [Htr Hpt]]]. cbn [p_trace] in Htr.
+    set (tasks := flat_map tasks_of preps) in *.
+    assert (forall t, In t tasks -> exists p outs, In t (tasks_of p) /\ oc_res (run_task body dis t) = Ok outs) as Hok'.
+    { intros t Ht. destruct (Hok t Ht) as [outs Ho]. apply in_flat_map in Ht as [p [_ Ht]]. eauto. }
+    exists preps. eexists. eexists. split; [eapply submit_gen_funs; exact Es|]. split; [exact Hpreps|].
+    split; [exact Hlog|]. split; [|split; [rewrite Htr, <- app_assoc; reflexivity|]].
+    - rewrite execute_calls.
+      eapply Permutation_trans; [apply Permutation_map, Permutation_flat_map_l, order_perm|].
+      rewrite (flat_map_slots body dis oc_calls tasks), map_flat_map.
+      rewrite (flat_map_ext_in _ (fun t => [task_id t])).
+      2:{ intros t Ht. destruct (Hok' t Ht) as (p & outs & Hin & Ho).
+          now destruct (task_ok_ids body dis p t outs Hin Ho) as [Hc _]. }
+      rewrite flat_map_singleton. unfold tasks. rewrite map_flat_map.
+      rewrite (flat_map_ext_in _ ids_of_prep) by (intros p _; apply task_ids_of_prep). apply Permutation_refl.
+    - rewrite map_app, Hpt.
+      apply Permutation_trans with (flat_map (ids_w dis true) preps ++ flat_map (ids_w dis false) preps).
+      2:{ eapply Permutation_trans; [apply flat_map_app_perm|].
+          apply Permutation_flat_map_ext. intros p _. apply ids_w_perm. }
+      apply Permutation_app_tail. rewrite execute_dumps.
+      eapply Permutation_trans; [apply Permutation_map, Permutation_flat_map_l, order_perm|].
+      rewrite (flat_map_slots body dis oc_dumps tasks), map_flat_map.
+      rewrite (flat_map_ext_in _ (task_wids dis)).
+      2:{ intros t Ht. destruct (Hok' t Ht) as (p & outs & Hin & Ho).
+          now destruct (task_ok_ids body dis p t outs Hin Ho) as [_ [Hd _]]. }
+      unfold tasks. rewrite flat_map_flat_map'.
+      rewrite (flat_map_ext_in _ (ids_w dis true)) by (intros p _; apply task_wids_of_prep). apply Permutation_refl.
+  Qed.
+
+  Theorem gens_logs : forall gens ps pis ps',
+    par_gens body dis user ps gens pis = Ok ps' ->
+    exists PP L T,
+      map prep_fun PP = concat gens /\ p_preps ps' = p_preps ps ++ PP
+      /\ p_log ps' = p_log ps ++ L /\ Permutation (map call_id L) (flat_map ids_of_prep PP)
+      /\ p_trace ps' = p_trace ps ++ T /\ Permutation (map dump_id T) (flat_map (dump_ids_of_prep dis) PP).
+  Proof.
+    induction gens as [|g rest IH]; intros ps pis ps' H; cbn [par_gens] in H.
+    - injection H as <-. exists [], [], []. cbn. rewrite !app_nil_r. repeat split; constructor.
+    - destruct (par_gen body dis user ps g (hd [] pis)) as [ps1|e] eqn:Eg; cbn [bind] in H; [|discriminate].
+      destruct (gen_logs _ _ _ _ Eg) as (P1 & L1 & T1 & Hf1 & Hp1 & Hl1 & Hc1 & Ht1 & Hd1).
+      destruct (IH _ _ _ H) as (P2 & L2 & T2 & Hf2 & Hp2 & Hl2 & Hc2 & Ht2 & Hd2).
+      exists (P1 ++ P2), (L1 ++ L2), (T1 ++ T2). cbn [concat].
+      rewrite map_app, Hf1, Hf2, Hp2, Hp1, Hl2, Hl1, Ht2, Ht1, <- !app_assoc, !map_app, !flat_map_app.
+      repeat split; now apply Permutation_app.
+  Qed.
+
+  (* ---------- barrier ---------- *)
+  Definition consumes_from (c : call) (p : prep) : Prop :=
+    exists q, In q (fparams (c_fn c)) /\ In q (fouts (prep_fun p)).
+  Definition barrier_prop (log : list call) (preps : list prep) : Prop :=
+    forall l1 c l2, log = l1 ++ c :: l2 ->
+    forall p, In p preps -> consumes_from c p ->
+    forall id, In id (ids_of_prep p) -> In id (map call_id l1).
+
+  Lemma call_in_preps L preps c :
+    Permutation (map call_id L) (flat_map ids_of_prep preps) -> In c L -> In (c_fn c) (map prep_fun preps).
+  Proof.
+    intros HP Hc. assert (In (call_id c) (map call_id L)) as Hin by (now apply in_map).
+    apply (Permutation_in _ HP) in Hin. apply in_flat_map in Hin as [p [Hp Hid]].
+    apply ids_of_prep_fun in Hid. cbn [call_id fst] in Hid. rewrite Hid. now apply in_map.
+  Qed.
+
+  Theorem gens_barrier : forall gens ps pis ps',
+    layered gens = true -> par_gens body dis user ps gens pis = Ok ps' ->
+    barrier_prop (p_log ps) (p_preps ps) ->
+    Permutation (map call_id (p_log ps)) (flat_map ids_of_prep (p_preps ps)) ->
+    (forall c, In c (p_log ps) -> forall q, In q (fparams (c_fn c)) -> ~ In q (flat_map fouts (concat gens))) ->
+    barrier_prop (p_log ps') (p_preps ps').
+  Proof.
+    induction gens as [|g rest IH]; intros ps pis ps' Hlay H Hbar Hperm Hold; cbn [par_gens] in H.
+    - now injection H as <-.
+    - destruct (par_gen body dis user ps g (hd [] pis)) as [ps1|e] eqn:Eg; cbn [bind] in H; [|discriminate].
+      destruct (gen_logs _ _ _ _ Eg) as (P1 & L1 & T1 & Hf1 & Hp1 & Hl1 & Hc1 & _ & _).
+      destruct (layered_cons _ _ Hlay) as [Hg Hrest]. cbn [concat] in Hold.
+      assert (forall c, In c L1 -> In (c_fn c) g) as HL1.
+      { intros c Hc. rewrite <- Hf1. eapply call_in_preps; eassumption. }
+      apply (IH ps1 (tl pis) ps' Hrest H).
+      + (* barrier for the enlarged log *)
+        rewrite Hl1, Hp1. intros l1 c l2 Heq p Hp Hcons id Hid.
+        apply app_eq_app in Heq as [l [[Ha Hb]|[Ha Hb]]].
+        * (* c inside the new segment, or at its start *)
+          destruct l as [|c' l].
+          -- rewrite app_nil_r in Ha. cbn [app] in Hb. subst l1.
+             assert (In c L1) as HcL by (rewrite <- Hb; now left).
+             apply in_app_or in Hp as [Hp|Hp].
+             ++ apply (Permutation_in _ (Permutation_sym Hperm)). apply in_flat_map. eauto.
+             ++ exfalso. destruct Hcons as [q [Hq Hqo]]. apply (Hg (c_fn c) (HL1 c HcL) q Hq).
+                rewrite flat_map_app. apply in_or_app. left. apply in_flat_map. exists (prep_fun p).
+                split; [rewrite <- Hf1; now apply in_map|exact Hqo].
+          -- cbn [app] in Hb. injection Hb as -> Hb.
+             apply in_app_or in Hp as [Hp|Hp].
+             ++ eapply (Hbar _ _ _ Ha); eassumption.
+             ++ exfalso. destruct Hcons as [q [Hq Hqo]].
+                apply (Hold c' ltac:(rewrite Ha; apply in_or_app; right; now left) q Hq).
+                rewrite flat_map_app. apply in_or_app. left. apply in_flat_map. exists (prep_fun p).
+                split; [rewrite <- Hf1; now apply in_map|exact Hqo].
+        * (* c inside the new segment *)
+          subst l1. assert (In c L1) as HcL by (rewrite Hb; apply in_or_app; right; now left).
+          rewrite map_app. apply in_or_app. left.
+          apply in_app_or in Hp as [Hp|Hp].
+          -- apply (Permutation_in _ (Permutation_sym Hperm)). apply in_flat_map. eauto.
+          -- exfalso. destruct Hcons as [q [Hq Hqo]]. apply (Hg (c_fn c) (HL1 c HcL) q Hq).
+             rewrite flat_map_app. apply in_or_app. left. apply in_flat_map. exists (prep_fun p).
+             split; [rewrite <- Hf1; now apply in_map|exact Hqo].
+      + rewrite Hl1, Hp1, map_app, flat_map_app. now apply Permutation_app.
+      + rewrite Hl1. intros c Hc q Hq Hin. apply in_app_or in Hc as [Hc|Hc].
+        * apply (Hold c Hc q Hq). rewrite flat_map_app. apply in_or_app. now right.
+        * apply (Hg (c_fn c) (HL1 c Hc) q Hq). rewrite flat_map_app. apply in_or_app. now right.
+  Qed.
+End LogsRun.
+
+(* ================================================================ the theorems *)
+Lemma ids_tasks_length p : length (ids_of_prep p) = length (tasks_of p).
+Proof. destruct p; cbn [ids_of_prep tasks_of]; [now rewrite !map_length|reflexivity]. Qed.
+
+Lemma flat_map_length_ext {A B C} (g : A -> list B) (h : A -> list C) l :
+  (forall x, length (g x) = length (h x)) -> length (flat_map g l) = length (flat_map h l).
+Proof. intros H. induction l as [|x l IH]; cbn [flat_map]; [reflexivity|]. now rewrite !app_length, H, IH. Qed.
+
+Lemma layering_ok_split gens :
+  layering_ok gens = true -> NoDup (flat_map fouts (concat gens)) /\ layered gens = true.
+Proof.
+  unfold layering_ok. intros H. apply andb_true_iff in H as [H1 H2]. split; [|exact H2]. now apply nodup_str_NoDup.
+Qed.
+
+Section Theorems.
+  Variable body : mfunc -> env -> result (list val).
+  Variable dis : str -> bool.
+  Variable user : shape_dict.
+
+  Notation seq_fold := (fold_left (fun acc f => do st <- acc; run_func body user st f)).
+
+  Theorem par_gens_equiv : forall gens ps rs pis rs',
+    st_rel ps rs -> length (p_log ps) = r_calls rs ->
+    NoDup (flat_map fouts (concat gens)) -> layered gens = true ->
+    seq_fold (concat gens) (Ok rs) = Ok rs' ->
+    exists ps', par_gens body dis user ps gens pis = Ok ps' /\ st_rel ps' rs' /\ length (p_log ps') = r_calls rs'.
+  Proof.
+    induction gens as [|g rest IH]; intros ps rs pis rs' Hrel Hcnt Hnd Hlay Hseq; cbn [concat] in *.
+    - cbn [fold_left] in Hseq. injection Hseq as <-. exists ps. repeat split; [apply Hrel..|exact Hcnt].
     - rewrite fold_left_app in Hseq.
       destruct (seq_fold g (Ok rs)) as [rs1|e] eqn:Eg; [|rewrite run_fold_err in Hseq; discriminate].
       destruct (layered_cons _ _ Hlay) as [Hg Hrest].
       rewrite flat_map_app in Hnd. destruct (NoDup_app_inv _ _ Hnd) as [Hndg _].
-      destruct (par_gen_equiv ps rs g (hd [] pis) rs1 Hrel) as (ps1 & Hp1 & Hrel1).
+      destruct (par_gen_equiv body dis user ps rs g (hd [] pis) rs1 Hrel) as (ps1 & preps & Hp1 & Hrel1 & Hpp & Hc1).
       + intros f Hf q Hq Hin. apply (Hg f Hf q Hq). rewrite flat_map_app. apply in_or_app. now left.
       + exact Hndg.
       + exact Eg.
-      + cbn [par_gens]. rewrite Hp1. cbn [bind]. apply (IH ps1 rs1 (tl pis) rs' Hrel1); [|exact Hrest|exact Hseq].
-        clear - Hnd. induction (flat_map fouts g) as [|a l IHl]; [exact Hnd|]. cbn [app] in Hnd.
-        inversion Hnd; subst. now apply IHl.
+      + cbn [par_gens]. rewrite Hp1. cbn [bind]. apply (IH ps1 rs1 (tl pis) rs' Hrel1); [| |exact Hrest|exact Hseq].
+        * destruct (gen_logs body dis user _ _ _ _ Hp1) as (P1 & L1 & T1 & _ & Hpp' & Hl1 & Hperm & _).
+          rewrite Hpp in Hpp'. apply app_inv_head in Hpp'. subst P1.
+          rewrite Hl1, app_length, Hc1, Hcnt. f_equal.
+          rewrite <- (map_length call_id), (Permutation_length Hperm).
+          apply flat_map_length_ext. apply ids_tasks_length.
+        * clear - Hnd. induction (flat_map fouts g) as [|a l IHl]; [exact Hnd|]. cbn [app] in Hnd.
+          inversion Hnd; subst. now apply IHl.
   Qed.
-End Run.
+
+  (* C03, main theorem: for EVERY list of schedules the parallel run returns what the sequential run returns *)
+  Theorem par_equiv_seq gens inputs pis rs :
+    layering_ok gens = true ->
+    map_run body (concat gens) inputs user = Ok rs ->
+    exists ps, par_run body dis gens inputs user pis = Ok ps
+               /\ p_env ps = r_env rs /\ p_shapes ps = r_shapes rs /\ p_out ps = r_out rs
+               /\ length (p_log ps) = r_calls rs.
+  Proof.
+    intros Hl Hseq. destruct (layering_ok_split _ Hl) as [Hnd Hlay].
+    assert (st_rel (par_init inputs)
+              {| r_env := inputs; r_shapes := init_shapes inputs; r_out := []; r_calls := 0 |}) as Hrel
+      by (repeat split).
+    destruct (par_gens_equiv gens (par_init inputs) _ pis rs Hrel eq_refl Hnd Hlay Hseq)
+      as (ps & Hp & (H1 & H2 & H3) & H4).
+    exists ps. repeat split; assumption.
+  Qed.
+
+  (* ... hence any two schedules give the same results *)
+  Corollary par_schedule_independent gens inputs pis pis' rs :
+    layering_ok gens = true -> map_run body (concat gens) inputs user = Ok rs ->
+    exists ps ps', par_run body dis gens inputs user pis = Ok ps /\ par_run body dis gens inputs user pis' = Ok ps'
+                   /\ p_out ps = p_out ps' /\ p_env ps = p_env ps'.
+  Proof.
+    intros Hl Hseq.
+    destruct (par_equiv_seq gens inputs pis rs Hl Hseq) as (ps & Hp & H1 & _ & H3 & _).
+    destruct (par_equiv_seq gens inputs pis' rs Hl Hseq) as (ps' & Hp' & H1' & _ & H3' & _).
+    exists ps, ps'. repeat split; congruence.
+  Qed.
+
+  (* every submitted task is invoked exactly once: the log is a permutation of
+     [(f, Some 0); ...; (f, Some (n-1))] per mapped function and [(f, None)] per unmapped one *)
+  Theorem calls_exactly_once gens inputs pis ps :
+    par_run body dis gens inputs user pis = Ok ps ->
+    map prep_fun (p_preps ps) = concat gens
+    /\ Permutation (map call_id (p_log ps)) (flat_map ids_of_prep (p_preps ps)).
+  Proof.
+    intros H. destruct (gens_logs body dis user _ _ _ _ H) as (PP & L & T & Hf & Hp & Hl & Hc & _).
+    cbn [par_init p_preps p_log app] in Hp, Hl. subst. split; assumption.
+  Qed.
+
+  (* each element is dumped exactly once: by the worker iff the storage dumps in the subprocess *)
+  Theorem single_dump gens inputs pis ps :
+    par_run body dis gens inputs user pis = Ok ps ->
+    Permutation (map dump_id (p_trace ps)) (flat_map (dump_ids_of_prep dis) (p_preps ps)).
+  Proof.
+    intros H. destruct (gens_logs body dis user _ _ _ _ H) as (PP & L & T & _ & Hp & _ & _ & Ht & Hd).
+    cbn [par_init p_preps p_trace app] in Hp, Ht. subst. exact Hd.
+  Qed.
+
+  (* no call before all calls of the functions whose values it consumes *)
+  Theorem barrier gens inputs pis ps :
+    layered gens = true -> par_run body dis gens inputs user pis = Ok ps ->
+    forall l1 c l2, p_log ps = l1 ++ c :: l2 ->
+    forall p, In p (p_preps ps) -> (exists q, In q (fparams (c_fn c)) /\ In q (fouts (prep_fun p))) ->
+    forall id, In id (ids_of_prep p) -> In id (map call_id l1).
+  Proof.
+    intros Hlay H. apply (gens_barrier body dis user gens (par_init inputs) pis ps Hlay H).
+    - intros l1 c l2 Heq. destruct l1; discriminate.
+    - apply Permutation_refl.
+    - intros c [].
+  Qed.
+End Theorems.
